@@ -513,6 +513,16 @@ def load_combined(files, order):
     return ChunkedScoresHolder.concat([ChunkedScoresHolder.load_h5(files[i]) for i in order])
 
 
+def load_combined_nested(files, order):
+    """the same chunk files combined in the same order, but grouped from the right: h0.combine(h1.combine(h2 ...)) -
+    concat of a holder that is itself the result of a combine ("combined in any order" covers the grouping as well)"""
+    hs = [ChunkedScoresHolder.load_h5(files[i]) for i in order]
+    acc = hs[-1]
+    for h in reversed(hs[:-1]):
+        acc = h.combine(acc)
+    return acc
+
+
 def select_and_judge(ctx, batch, H, desc, alts, score_of, col, case):
     """One select_next_plate call, judged (``case``: callable giving the replay case).  -> outcome label"""
     col.transitions += 1
@@ -632,6 +642,19 @@ def run_select_combo(ctx, batch, n_chunks_list, first, tier, col, d):
                     if not (np.array_equal(snap[0], H.plate_ids) and np.array_equal(snap[1], H.scores)):
                         H = load_combined(files, order)  # selection mutated the combined holder: start fresh
                         snap = (np.array(H.plate_ids, copy=True), np.array(H.scores, copy=True))
+                    # >= 3 chunks: the same files, same order, grouped from the right, are judged the same way
+                    if n_chunks >= 3 and desc is fam[0]:
+                        col.transitions += 1
+                        try:
+                            Hn = load_combined_nested(files, order)
+                        except Exception as exc:  # noqa: BLE001
+                            col.violation("C06|combine|raised", f"right-nested combine of the chunk files in order {order} raised {short_exc(exc)}",
+                                          case_of("select", ctx, batch, n_chunks, scores=sl, order=order, policy=["none"]))
+                        else:
+                            out_n = select_and_judge(
+                                ctx, batch, Hn, desc, alts, score_of, col,
+                                lambda: case_of("select", ctx, batch, n_chunks, scores=sl, order=order, policy=desc, nested=True))
+                            col.outcome("select-nested", desc[0], out_n)
                     if not sampled and n_chunks >= 2 and len(cand) >= 2 and desc[0] == "stub" and out.startswith("plate"):
                         sampled = True
                         col.sample({"kind": "select", "rows": ctx.rows, "batch": batch, "n_chunks": n_chunks,
@@ -1032,7 +1055,7 @@ def replay(case, col):
             files = save_all(holders, d)
             order = [int(x) for x in case["order"]]
             try:
-                H = load_combined(files, order)
+                H = load_combined_nested(files, order) if case.get("nested") else load_combined(files, order)
             except Exception as exc:  # noqa: BLE001
                 col.violation("C06|combine|raised", f"load/concat in order {order} raised {short_exc(exc)}", case)
                 return
